@@ -17,6 +17,7 @@ from concurrent.futures import ThreadPoolExecutor, as_completed
 ROOT = os.path.dirname(os.path.dirname(os.path.abspath(__file__)))
 REPO = os.environ.get('NMV_REPO', '/repo')
 ENGINE = os.path.join(ROOT, 'engine')
+OUT = os.environ.get('NMV_OUT', ROOT)   # evidence/ and replays/ go here (redirected when evaluating seeded changes)
 sys.path.insert(0, ENGINE)
 import ll2c  # noqa
 
@@ -374,7 +375,7 @@ class Run:
         return False, None, '\n'.join(texts)
 
     def write_replay(self, h, cfg, prop, inputs, text, reproduced):
-        d = os.path.join(ROOT, 'replays', self.pid); os.makedirs(d, exist_ok=True)
+        d = os.path.join(OUT, 'replays', self.pid); os.makedirs(d, exist_ok=True)
         tag = hashlib.md5(json.dumps([h['name'], cfg, inputs], sort_keys=True, default=str).encode()).hexdigest()[:10]
         path = os.path.join(d, '%s-%s.json' % (h['name'], tag))
         json.dump(dict(property=self.pid, harness=h['name'], config={k: v for k, v in cfg.items()}, failed=prop, inputs=['0x%x' % v for v in inputs],
@@ -536,8 +537,8 @@ class Run:
                 'heap allocation never fails; exceptions, abort and failed assert() are treated as violations',
                 'bounds: see coverage.bounds and per-query config/unwind; nothing is claimed outside them'],
             wall_s=round(wall, 1), violations=len(self.violations))
-        os.makedirs(os.path.join(ROOT, 'evidence'), exist_ok=True)
-        json.dump(ev, open(os.path.join(ROOT, 'evidence', self.pid + '.json'), 'w'), indent=1, default=str)
+        os.makedirs(os.path.join(OUT, 'evidence'), exist_ok=True)
+        json.dump(ev, open(os.path.join(OUT, 'evidence', self.pid + '.json'), 'w'), indent=1, default=str)
 
 
 def do_replay(pid, path):
